@@ -2779,7 +2779,21 @@ def _b_divmod(it, a, k):
         raise AbsRaise("ZeroDivisionError", ex.args)
 
 
+def _b_concrete(name, fn, errors=(TypeError, ValueError, OverflowError)):
+    """A pure built-in on concrete arguments (ord, chr, hex, oct, ascii, pow): computed by Python itself."""
+    def run(it, a, k):
+        if any(isinstance(x, Abs) or _has_abs(x) for x in a) or k:
+            it.unsupported("%s() of an abstract value" % name)
+        try:
+            return fn(*a)
+        except errors as ex:
+            raise AbsRaise(type(ex).__name__, ex.args)
+    return Prim(run, name)
+
+
 _BUILTINS = {
+    "ord": _b_concrete("ord", ord), "chr": _b_concrete("chr", chr), "hex": _b_concrete("hex", hex), "oct": _b_concrete("oct", oct),
+    "ascii": _b_concrete("ascii", ascii), "pow": _b_concrete("pow", pow, (TypeError, ValueError, OverflowError, ZeroDivisionError)),
     "repr": Prim(_b_repr, "repr"), "round": Prim(_b_round, "round"), "divmod": Prim(_b_divmod, "divmod"),
     "len": Prim(_b_len, "len"), "isinstance": Prim(_b_isinstance, "isinstance"), "type": Prim(_b_type, "type"),
     "tuple": Prim(_mk_seq(tuple), "tuple"), "list": Prim(_mk_seq(list), "list"), "set": Prim(_mk_seq(set), "set"),
